@@ -72,7 +72,7 @@ SPECIAL_GEOMS = [(1, 1), (1, 37), (41, 1), (15, 15), (16, 16), (17, 17), (15, 33
 # Raw (and every encoder that can fall back to Raw) cannot send a row wider than UPDATE_BUF_SIZE bytes:
 # the server closes the connection (reported separately, not a C01 matter) -> widths up to 8192 px only
 BIG_GEOMS = [(2049, 3), (2100, 5), (4100, 2), (300, 230), (1100, 61), (3, 2200), (8192, 1), (260, 260), (2048, 33)]
-KINDS = ["flat", "pal", "runs", "vruns", "blocks", "outlier", "grad", "noise", "photo", "tiles", "tiles"]
+KINDS = ["flat", "pal", "runs", "vruns", "blocks", "outlier", "grad", "noise", "photo", "tiles", "tiles", "runsx"]
 NCOLS = [1, 2, 3, 4, 5, 16, 17, 126, 127, 128, 129, 255]
 
 
@@ -203,6 +203,23 @@ def boundary_scripts(rng):
         mk(rng.choice([2, 4]), 65, 65, "zrle", rng.choice(["server", "rgb888le", "rgb555le", "rgb565be", "bgr233"]),
            [("pal", n, 0), ("runs", n, 3 << 4)], extra_enc=(-256 + rng.randint(0, 9),))
     mk(4, 300, 230, "zrle", "server", [("noise", 1, 0), ("tiles", 5, 64 << 4)])
+    # run lengths at the 255-limits of the run-length code; palette of exactly 127 colours at its edge
+    for fmtn in ("server", "rgb565le", "bgr233"):
+        mk(rng.choice([2, 4]), rng.choice([64, 33, 50]), 64, "zrle", fmtn, [("runsx", 3, 0), ("runsx", 200, 0)])
+        # (placed away from the soft cursor at the top-left corner, which would add two colours)
+        sb_e, th_e = rng.choice([2, 4]), rng.choice([64, 23])
+        lines = ["screen 140 100 %d" % sb_e, "client"]
+        if fmtn != "server":
+            lines.append("fmt " + " ".join(str(v) for v in FORMATS[fmtn]))
+        lines.append("enc 16")
+        for variant in (0, 1, 0):
+            lines.append("paint edge127 %d 70 30 64 %d 127 %d" % (rng.randrange(1 << 30), th_e, variant << 4))
+            lines.append("req 0 70 30 64 %d" % th_e)
+        out.append(("\n".join(lines) + "\n", {"sb": sb_e, "W": 140, "H": 100, "enc": "zrle", "fmt": fmtn, "big": False,
+                                               "lossy": False, "boundary": True}))
+    # Hextile: deterministic cycle of tile kinds (state transitions of validBg/validFg)
+    for sb_, fmtn in ((4, "server"), (2, "rgb888le"), (1, "rgb332"), (4, "rgb565be")):
+        mk(sb_, 16 * 15 + 3, 35, "hextile", fmtn, [("tiles", 2, (16 << 4) | 2), ("tiles", 3, (16 << 4) | 2)])
     mk(4, 2100, 5, "zrle", "rgbx_le", [("runs", 17, 300 << 4)])
     # Zlib / Ultra: row splitting (32768-pixel pieces), tiny rectangles sent raw
     mk(4, 300, 230, "zlib", "server", [("photo", 1, 0), ("flat", 1, 0)], extra_enc=(-256 + 9,), reqs=[(0, 0, 300, 230), (3, 3, 2, 2), (0, 0, 4, 1)])
@@ -358,6 +375,7 @@ def process(args):
         return res
     sb = meta["sb"]
     fmt = D.Fmt(*server_format(sb))
+    srv_fmt = fmt
     conn = D.Conn()
     codec = Codec(codec_exe)
     lean_lines, lean_expect = [], []
@@ -376,9 +394,11 @@ def process(args):
         for l in info:
             if l.startswith("fmtinfo "):
                 fmt = D.Fmt(*[int(v) for v in l.split()[1:11]])
+                srv_fmt = fmt
                 if fmt.depth > 24 and fmt.bpp == 32:
-                    res["stats"]["enc"]["(sessions with depth>24 format: CPIXEL by de-facto rule)"] = \
-                        res["stats"]["enc"].get("(sessions with depth>24 format: CPIXEL by de-facto rule)", 0) + 1
+                    res["stats"].setdefault("notes", {})
+                    res["stats"]["notes"]["sessions whose format has depth>24 (ZRLE CPIXEL decoded by the de-facto rule)"] = \
+                        res["stats"]["notes"].get("sessions whose format has depth>24 (ZRLE CPIXEL decoded by the de-facto rule)", 0) + 1
         if t[0] == "fmt":
             f = tuple(int(v) for v in t[1:11])
             fmt = D.Fmt(*(BGR233 if not f[3] else f))
@@ -488,7 +508,7 @@ def process(args):
                 # TightPng: the image holds the server's colours at 8 bits; exact only up to the client's rescaling
                 e = chan_err(fmt, r["px"], ref)
                 res["lossy_err"]["png-rescale"] = max(res["lossy_err"].get("png-rescale", 0), e)
-                if e > png_bound(fmt):
+                if e > png_bound(srv_fmt, fmt):
                     fail("oracle", "TightPng rectangle differs by %d per channel" % e, op)
             elif not same_pixels(fmt, r["px"], ref):
                 bad = next(i for i in range(0, len(ref), fmt.bytespp) if r["px"][i:i + fmt.bytespp] != ref[i:i + fmt.bytespp]) // fmt.bytespp
@@ -565,7 +585,9 @@ def model_payload(r):
 # per-channel error bounds (0..255 scale) for the lossy variants.  Derived from measurement over the
 # content generators of this file at all seeds listed in docs/C01.md (observed maxima in the evidence,
 # `lossy_max_channel_error`), with head-room; JPEG error grows as the quality level falls.
-JPEG_BOUND = {0: 255, 1: 230, 2: 200, 3: 180, 4: 160, 5: 140, 6: 120, 7: 100, 8: 80, 9: 60}
+# measured maxima over 600 lossy scripts (seeds 5, 6; smooth / flat / block content incl. the soft cursor's
+# hard edges): q0 222, q1 217, q2 161, q3 164, q4 139, q5 131, q6 111, q7 72, q8 41, q9 8
+JPEG_BOUND = {0: 255, 1: 250, 2: 205, 3: 205, 4: 180, 5: 170, 6: 150, 7: 105, 8: 65, 9: 20}
 
 
 def lossy_bound(meta):
@@ -575,8 +597,14 @@ def lossy_bound(meta):
     return 255
 
 
-def png_bound(fmt):
-    return 0
+def png_bound(srv, fmt):
+    """TightPng carries the SERVER's colours rescaled to 8 bits per channel; how a client rescales them to
+    its own channel widths is not specified anywhere.  With the colour-scaling rule (c8*max+127)/255 the
+    result equals the translated framebuffer exactly whenever the server's or the client's channels are
+    8 bits wide; otherwise double rounding may cost one least-significant step of the client channel."""
+    if all(m == 255 for m in (srv.rmax, srv.gmax, srv.bmax)) or all(m == 255 for m in (fmt.rmax, fmt.gmax, fmt.bmax)):
+        return 0
+    return max(-(-255 // m) for m in (fmt.rmax, fmt.gmax, fmt.bmax) if m)
 
 
 def merge(dst, src):
@@ -604,7 +632,7 @@ def run(ctx):
             if f.endswith(".json"):
                 rec = json.load(open(os.path.join(common.VERIF, "corpus", "C01", f)))
                 cases.append(("\n".join(rec["script"]) + "\n", rec["meta"]))
-        n = 220 if ctx.tier == "quick" else 2500
+        n = 500 if ctx.tier == "quick" else 8000
         # every encoding x a spread of formats first (stratified), then free random scripts
         for e in LOSSLESS_ENCS:
             for sb in (1, 2, 4):
@@ -612,7 +640,7 @@ def run(ctx):
             cases.append(gen_script(ctx.rng, ctx.tier, {"enc": e, "big": True}))
         for sc in boundary_scripts(ctx.rng):
             cases.append(sc)
-        nlossy = 12 if ctx.tier == "quick" else 120
+        nlossy = 20 if ctx.tier == "quick" else 300
         for k in range(nlossy):
             cases.append(gen_script(ctx.rng, ctx.tier, {"enc": "tight", "quality": k % 10, "sb": ctx.rng.choice([2, 4, 4]),
                                                          "fmt": ctx.rng.choice(["server", "rgb888le", "bgr888be", "rgb565le", "rgb555be"]),
@@ -648,7 +676,7 @@ def run(ctx):
         if len(samples) < 3:
             samples.append({"script": sc.splitlines()[:40], "meta": meta})
     dist.update({"wire_rects_by_encoding": stats.get("enc", {}), "hextile_tile_flags": stats.get("hextile", {}),
-                 "zrle_tile_modes": stats.get("zrle", {}), "tight_subencodings": stats.get("tight", {}),
+                 "zrle_tile_modes": stats.get("zrle", {}), "tight_subencodings": stats.get("tight", {}), "notes": stats.get("notes", {}),
                  "pixels_decoded": npix, "rects_spec_decoded_in_lean": lean_rects,
                  "rects_predicted_by_model": model_rects, "lossy_max_channel_error": lossy_err,
                  "wall_correspondence_s": round(time.time() - t0, 1)})
@@ -662,6 +690,7 @@ def run(ctx):
 
 PARTIAL = [
     "Tight (fill / mono / indexed / full-colour / NoZlib), TightPng, Ultra (LZO): no encoder model, no theorem; every run decodes the real output with an independent Python decoder (zlib via Python, 4 persistent Tight streams; PNG in Python; LZO via the repository's minilzo in the harness) and with the Lean Tight/Ultra container decoder, and compares with the pre-encode snapshot exactly",
+    "TightPng PNG rectangles: exact whenever the server's or the client's colour channels are 8 bits wide; for other combinations (e.g. 5-bit server channels, 7-bit client channels) the client-side rescaling of the 8-bit PNG samples is unspecified and double rounding may cost one least-significant step of the client channel (bound png_bound, measured maximum in the evidence)",
     "Tight-JPEG: per-run validation only, per-channel error bound by quality level (JPEG_BOUND in vlib/props/c01.py, measured maxima in the evidence)",
     "ZYWRLE: per-run validation of the container and of every tile that is not wavelet-coded (exact); wavelet-coded raw tiles are only checked for well-formedness (no inverse transform, no error bound)",
     "rectangle splitting of CoRRE / Zlib / Ultra is modelled (correSplit, zlibSplit) and compared with the wire on every run, but 'the pieces tile the rectangle' is not a theorem (the run checks area and containment)",
@@ -680,6 +709,8 @@ TRUSTED_EXTRA = [
 ]
 
 META = {
-    "technique": "Lean 4 theorems (spec decoders; decode∘encode = id for reference and faithful server encoder models) + per-run differential validation of the real encoders against an independent decoder, the Lean spec decoder and the Lean encoder models",
+    "technique": "Lean 4 theorems: decode(serverEncoderModel P) = P for faithful models of Raw(+updateBuf batching), RRE, CoRRE, Hextile, ZRLE tiles (all P, geometries), decode(encodeWith choices P) = P for choice-parametrised reference encoders, zlib container/sequence composition under an explicit zlib law; tied to the code on every run by byte-exact comparison of the models with the real encoders, by spec-decoding the real wire bytes in Lean, and by an independent Python decoder compared with the pre-encode snapshot",
+    "level_text": "Proof: Enc/Spec.lean holds decoders written from the RFB rules; Enc/Server.lean + Enc/UpdateBuf.lean hold bug-for-bug models of rfbSendRectEncodingRaw, subrectEncode (rre.c/corre.c/hextile.c), the Hextile tile loop and ZRLE_ENCODE_TILE; Props/C01.lean proves that every model output decodes to exactly its input, that the byte stream is independent of where updateBuf flushes, and that rectangles/updates compose over a persistent zlib stream.  Tie: harness/c01.c runs the real encoders (3 server depths x 23 client formats x 10 encodings x levels, boundary geometries, >=3 updates per connection); models are compared byte for byte, the Lean spec decoder and an independent Python decoder must both reproduce the hook snapshot.",
+    "level_note": "Trusted: Lean kernel (propext/Classical.choice/Quot.sound), T0 probes, harness/generator/Python decoder/compiled driver (testing; measured distribution in the evidence), zlib/LZO/libjpeg/libpng, cl->translateFn (C10).  No theorem for Tight/TightPng/Ultra/JPEG/ZYWRLE (per-run validation only; ZYWRLE wavelet tiles not inverse-transformed); CPIXEL rule of the code differs from the RFC for depth>24 (known finding cpixel-depth).",
     "design_ref": "DESIGN.md section 7, C01",
 }
